@@ -463,6 +463,13 @@ def check_recursive_scope(ctx):
                      % coq_list(['{| s_key := %s; s_unique := %s; s_keyref := %s |}' % tuple(
                          coq_list([coq_tuple([v]) for v in x[t]]) for t in 'eur') for x in scopes]))
     model = iter(common.coq_eval('C08r', IMPORTS, '', terms, shard=200))
+    # the same documents through the traversal model with a stack of tables (Scopes.run_stack): duplicates of the key K and
+    # of the unique U, instance by instance in document order (nested instances come first in the content model)
+    def stree(x, tag):
+        return '(SNode %s)' % coq_list(['(Sub %s)' % stree(k, tag) for k in x['kids']] + ['(Val %s)' % coq_Z(v) for v in x[tag]])
+    sterms = ['(fold_right Nat.add 0 (map run_stack %s))' % coq_list([stree(t, tag) for t in c['tops'] for tag in ('e', 'u')])
+              for c in gen_cases]
+    smodel = iter(common.coq_eval('C08s', 'From XV Require Import Base Scopes.', '', sterms, shard=200))
     for c, o in zip(cases, impl):
         rep = {'kind': 'recursive', 'xml': c['xml'], 'xsd': RECURSIVE_XSD, 'version': c['version'], 'impl': o}
         ctx.count(('recursive', c['version'], c['xml']), nontrivial=True)
@@ -474,6 +481,10 @@ def check_recursive_scope(ctx):
                 ctx.violation('%s is accepted although two selected nodes of K have the same field value' % c['xml'], rep)
             continue
         ndup, ndang = next(model)
+        nstack = next(smodel)
+        if nstack != ndup:
+            ctx.violation('the traversal model (Scopes.run_stack) reports %d duplicates, the per-instance tables %d for %s'
+                          % (nstack, ndup, c['xml']), dict(rep, theorem='C08_nested_scopes'), no_input=True)
         depth = max(len(flat_scopes(t)) for t in c['tops'])
         ctx.dist('recursive scopes', 'instances per top-level scope: %s, model %s' % (min(depth, 4), 'valid' if (ndup, ndang) == (0, 0) else 'invalid'))
         if o['valid'] != ((ndup, ndang) == (0, 0)) or o['other']:
